@@ -154,6 +154,57 @@ def inherited_default_revalidated(ctx, rule):
         ctx.ok(rule, f, vn, "guard `%s`: %d abstract cases, falsy non-None defaults are treated like any other default" % (" / ".join(norm(t.ast) for t, _ in tests), n))
 
 
+def event_model(ctx, rule, prop):
+    """Event.__set__ interpreted abstractly: mode x outcome of the assignment proper (succeeds / refused / a watcher raises)."""
+    import itertools
+    from engine.absint import Interp, Obj, Unsupported, _Raise
+    from engine.loader import AnalysisError
+    ev = ctx.repo.method("param.parameters.Event", "__set__")
+    problems = []
+    n = 0
+    for mode, outcome in itertools.product(["set-reset", "set", "reset"], ["ok", "refused", "watcher-raises"]):
+        log = []
+
+        def hook(fn, args, kwargs, outcome=outcome, log=log):
+            if fn == "super().__set__":
+                log.append("assign")
+                if outcome != "ok":
+                    raise _Raise("ValueError" if outcome == "refused" else "RuntimeError")
+                return None
+            if fn == "self._reset_event":
+                log.append("reset")
+                return None
+            return NotImplemented
+        me = Obj("event_parameter", _mode=mode, name="e")
+        it = Interp(ctx.hier, dyn="param.parameters.Event", inline=lambda m: False, call_hook=hook)
+        try:
+            outs = it.run_all(ev, {ev.params[0]: me, ev.params[1]: Obj("instance"), ev.params[2]: True})
+        except Unsupported as e:
+            raise AnalysisError("absint cannot interpret Event.__set__: %s -- %s cannot decide" % (e, rule))
+        n += 1
+        if len(outs) != 1 or outs[0].imprecise:
+            raise AnalysisError("absint imprecise on Event.__set__ -- %s cannot decide" % rule)
+        want = {"set-reset": ["assign", "reset"], "set": ["assign"], "reset": ["reset"]}[mode]
+        desc = "Event in mode %r, the assignment %s" % (mode, {"ok": "succeeds", "refused": "is refused", "watcher-raises": "is stored and a watcher raises"}[outcome])
+        if log != want:
+            why = ""
+            if mode == "set" and "reset" in log:
+                why = ": while update()/trigger() deliver the Event it is held in mode 'set'; an assignment to it that fails (e.g. a refused one made by one of its own watchers) must not flip it to False under the watchers still to come"
+            elif mode == "set-reset" and "reset" not in log:
+                why = ": the Event stays True, its next firing is an unchanged assignment that nobody is told about"
+            problems.append("%s: does %s, specification %s%s" % (desc, log, want, why))
+        elif (outcome != "ok" and mode != "reset") != (outs[0].kind == "raise"):
+            problems.append("%s: outcome %s" % (desc, outs[0].kind))
+    ctx.abstract_cases += n
+    # C02 is concerned only by a failed assignment that changes the Event (mode 'set': the reset flips it under the watchers still to come)
+    rel = [p_ for p_ in problems if prop != "C02" or "in mode 'set'," in p_]
+    if rel:
+        ctx.fail(rule, ev, ev.node, "Event model: %s (%d disagreeing case(s))" % (rel[0], len(rel)), key=ev.qualname + "::event-model",
+                 input="a watcher of Event e makes a refused assignment to e while p.param.trigger('e') delivers it -> later watchers see e == False")
+    else:
+        ctx.ok(rule, ev, ev.node, "Event model, 9 abstract cases (mode x assignment succeeds / is refused / a watcher raises): assigned and reset exactly as the mode says")
+
+
 def restorer_model(ctx, rule):
     """_ParametersRestorer.__exit__ interpreted abstractly: leaving `with obj.param.update(...)` assigns back
     EVERY recorded previous value (also one identical to the current value: that plain assignment is what ends a
